@@ -638,6 +638,15 @@ func (c *controller) reset(ctx context.Context, prompter string) error {
 	c.lifecycleLock.Lock()
 	defer c.lifecycleLock.Unlock()
 
+	// Don't allow any reset operations if the controller is disabled. If the
+	// session has been terminated in the meantime (e.g. by a terminate
+	// operation that held the lifecycle lock while we were waiting for it),
+	// then its archive has been removed from disk and rewriting it here would
+	// leave an orphaned archive behind.
+	if c.disabled {
+		return errors.New("controller disabled")
+	}
+
 	// Check if the session is currently running.
 	running := c.cancel != nil
 
